@@ -697,6 +697,14 @@ class Inliner:
         class S(ast.NodeTransformer):
             def visit_Call(self, n):
                 self.generic_visit(n)
+                # map(f, xs) -> (f(x_) for x_ in xs);  getattr(o, 'name') -> o.name
+                if isinstance(n.func, ast.Name) and n.func.id == 'map' and len(n.args) == 2 and not n.keywords and isinstance(n.args[0], (ast.Name, ast.Attribute)):
+                    return ast.copy_location(ast.GeneratorExp(
+                        elt=ast.Call(func=n.args[0], args=[ast.Name(id='x_', ctx=ast.Load())], keywords=[]),
+                        generators=[ast.comprehension(target=ast.Name(id='x_', ctx=ast.Store()), iter=n.args[1], ifs=[], is_async=0)]), n)
+                if isinstance(n.func, ast.Name) and n.func.id == 'getattr' and len(n.args) == 2 and not n.keywords and isinstance(n.args[1], ast.Constant) and \
+                        isinstance(n.args[1].value, str) and n.args[1].value.isidentifier():
+                    return ast.copy_location(ast.Attribute(value=n.args[0], attr=n.args[1].value, ctx=ast.Load()), n)
                 if any(isinstance(a, ast.Starred) and isinstance(a.value, (ast.Tuple, ast.List)) for a in n.args):
                     args = []
                     for a in n.args:
